@@ -87,11 +87,191 @@ def judge(case, call, impl):
     if op == 'eval':
         return judge_eval(case, impl)
     if op == 'roots':
-        return judge_roots(case, impl(case))
-    if op in ('evald', 'muld', 'derivd'):
+        r = judge_roots(case, impl(case))
+        if r is None and case['a']['len'] - 1 >= 3 and int(np.prod(case['a']['shape'], dtype=int)) > 0:
+            r = check_eig_contract(case)
+        return r
+    if op == 'evald':
         return judge_derivs(case, impl)
+    if op in ('bind', 'und', 'smuld', 'chaind'):
+        return judge_dual(case, impl)
+    if op == 'invline':
+        return judge_invline(case, impl)
+    if op == 'sdiv':
+        return judge_sdiv(case, call)
+    if op == 'eq':
+        return judge_eq(case, call)
     if op == 'rootsd':
         return judge_roots_derivs(case, call)
+    return None
+
+
+# ------------------------------------------------------------------ dual (value, d/dt) reference arithmetic
+def pl(x):
+    return [int(v) for v in np.atleast_1d(x)]
+
+def d_add(u, v): return (pl(np.polyadd(u[0], v[0])), pl(np.polyadd(u[1], v[1])), u[2] or v[2])
+def d_sub(u, v): return (pl(np.polysub(u[0], v[0])), pl(np.polysub(u[1], v[1])), u[2] or v[2])
+def d_mul(u, v): return (pl(np.polymul(u[0], v[0])),
+                         pl(np.polyadd(np.polymul(v[0], u[1]), np.polymul(u[0], v[1]))), u[2] or v[2])
+def d_neg(u): return ([-x for x in u[0]], [-x for x in u[1]], u[2])
+def d_der(u): return (pl(np.polyder(u[0])) if len(u[0]) > 1 else [0], pl(np.polyder(u[1])) if len(u[1]) > 1 else [0], u[2])
+def d_pow(u, n):
+    r = ([1], [0], u[2])
+    for _ in range(n):
+        r = d_mul(r, u)
+    return r
+DBIN = {'add': d_add, 'sub': d_sub, 'rsub': lambda u, v: d_sub(v, u), 'mul': d_mul}
+DUN = {'neg': lambda u, n: d_neg(u), 'deriv': lambda u, n: d_der(u), 'pow': d_pow, 'id': lambda u, n: u}
+
+def dual_arr(o):
+    es, ds, ms = elems(o), delems(o), mask_bits(o['mask'], o['shape'])
+    a = np.empty(len(es), dtype=object)
+    a[:] = [(list(e), list(d), bool(m)) for e, d, m in zip(es, ds, ms)]
+    return a.reshape(o['shape'])
+
+def dual_map2(f, a, b):
+    out = np_bcast(list(a.shape), list(b.shape))
+    if out is None:
+        return None
+    xa, xb = np.broadcast_to(a, out).ravel(), np.broadcast_to(b, out).ravel()
+    r = np.empty(len(xa), dtype=object)
+    r[:] = [f(u, v) for u, v in zip(xa, xb)]
+    return r.reshape(out)
+
+def dual_map(f, a):
+    r = np.empty(a.size, dtype=object)
+    r[:] = [f(u) for u in a.ravel()]
+    return r.reshape(a.shape)
+
+
+def judge_dual(case, impl):
+    """ring operations on polynomials with derivatives: value AND derivative against dual-number arithmetic
+    built from numpy.poly*, masks = union, shape = NumPy broadcast"""
+    op = case['op']
+    got = impl(case)
+    a = dual_arr(case['a'])
+    n = case.get('n', 0)
+    value_only = False
+    if op == 'bind':
+        r = dual_map2(DBIN[case['sym']], a, dual_arr(case['b']))
+    elif op == 'und':
+        r = dual_map(lambda u: DUN[case['sym']](u, n), a)
+        value_only = case['sym'] == 'pow' and n == 0
+    elif op == 'smuld':
+        k = case['k']
+        r = dual_map(lambda u: ([k * x for x in u[0]], [k * x for x in u[1]], u[2]), a)
+    else:
+        s1, s2, s3 = case['syms']
+        r = dual_map2(DBIN[s1], a, dual_arr(case['b']))
+        if r is not None:
+            r = dual_map2(DBIN[s2], r, dual_arr(case['c']))
+        if r is not None:
+            r = dual_map(lambda u: DUN[s3](u, n), r)
+            value_only = s3 == 'pow' and n == 0
+    if r is None:
+        if got != 'ValueError':
+            return (sig(case, 'no-ValueError'), '%s of incompatible shapes did not raise ValueError' % op)
+        return None
+    if isinstance(got, str):
+        return (sig(case, 'exception:' + got), '%s on polynomials with derivatives raised %s' % (op, got))
+    if value_only:
+        # p**0: the constant 1 with derivative 0; its shape and mask are not specified
+        for cell, dcell in zip(got[1], got[2]):
+            if cell != 'm' and (trim(cell) != [1] or trim(dcell) != []):
+                return (sig(case, 'value'), 'p**0 is %s with derivative %s' % (cell, dcell))
+        return None
+    flat = list(r.ravel())
+    ms = [u[2] for u in flat]
+    return cmp_cells(case, got[:2], list(r.shape), ms, [u[0] for u in flat]) or \
+        cmp_cells(dict(case, op=op + '.d_dt'), [got[0], got[2]], list(r.shape), ms, [u[1] for u in flat])
+
+
+def judge_sdiv(case, call):
+    """p / k, p / Polynomial([k]), p *= k, p /= k …: coefficients (and derivative coefficients) times or over k;
+    division by zero masks the element"""
+    a, k, f = case['a'], case['k'], case['form']
+    try:
+        with warnings.catch_warnings():
+            warnings.simplefilter('error')
+            r = call(case)
+    except Exception as e:
+        return (sig(case, 'exception:' + C.exc_name(e)), '%s with k=%s raised %r' % (f, k, e))
+    if not isinstance(r, Polynomial) or list(r._shape_) != list(a['shape']) or r._numer_ != (a['len'],):
+        return (sig(case, 'shape'), '%s: result %r' % (f, r))
+    mul = '*' in f
+    ms = mask_bits(a['mask'], a['shape'])
+    gm = expanded_mask(r).ravel()
+    gv = np.broadcast_to(np.asarray(r._values_, dtype=float), tuple(r._shape_) + (a['len'],)).reshape(-1, a['len'])
+    has_d = a.get('d') is not None
+    if has_d and 't' not in r.derivs:
+        return (sig(case, 'no-derivative'), '%s dropped the derivative' % f)
+    dv = None
+    if has_d:
+        dv = np.broadcast_to(np.asarray(r.d_dt._values_, dtype=float), tuple(r._shape_) + (a['len'],)).reshape(-1, a['len'])
+    for i, (e, d) in enumerate(zip(elems(a), delems(a))):
+        em = bool(ms[i]) or (not mul and k == 0)
+        if bool(gm[i]) != em:
+            return (sig(case, 'mask'), '%s with k=%s: element %d masked=%s, expected %s' % (f, k, i, bool(gm[i]), em))
+        if em:
+            continue
+        exp = [x * k for x in e] if mul else [x / k for x in e]
+        if [float(x) for x in gv[i]] != [float(x) for x in exp]:
+            return (sig(case, 'value'), '%s with k=%s of %s gives %s' % (f, k, e, list(gv[i])))
+        if has_d:
+            dexp = [x * k for x in d] if mul else [x / k for x in d]
+            if [float(x) for x in dv[i]] != [float(x) for x in dexp]:
+                return (sig(case, 'd_dt'), '%s with k=%s: derivative of %s (d=%s) is %s' % (f, k, e, d, list(dv[i])))
+    return None
+
+
+def judge_eq(case, call):
+    """== and != of unmasked polynomials of possibly different order compare them as polynomials"""
+    a, b = case['a'], case['b']
+    try:
+        r = call(case)
+    except Exception as e:
+        return (sig(case, 'exception:' + C.exc_name(e)), '%s raised %r' % (case['form'], e))
+    exp = [trim(p) == trim(q) for p, q in zip(elems(a), elems(b))]
+    if case['form'] == 'ne':
+        exp = [not x for x in exp]
+    if isinstance(r, (bool, np.bool_)):
+        got = [bool(r)]
+    else:
+        got = [bool(x) for x in np.broadcast_to(np.asarray(r._values_), r._shape_).ravel()]
+        if np.any(expanded_mask(r)):
+            return (sig(case, 'mask'), 'comparison of unmasked polynomials is masked')
+    if got != exp and not (len(got) == 1 and len(exp) != 1 and got[0] == (all(exp) if case['form'] == 'eq' else any(exp))):
+        return (sig(case, 'value'), '%s of %s and %s gives %s, as polynomials %s' % (case['form'], elems(a), elems(b), got, exp))
+    return None
+
+
+def judge_invline(case, impl):
+    """invert_line of y = a x + b is x = y/a - b/a: composing with the original gives the identity"""
+    a = case['a']
+    got = impl(case)
+    if a['len'] != 2:
+        if got != 'ValueError':
+            return (sig(case, 'no-ValueError'), 'invert_line of an order-%d polynomial did not raise ValueError' % (a['len'] - 1))
+        return None
+    if isinstance(got, str):
+        return (sig(case, 'exception:' + got), 'invert_line of a first-order polynomial raised ' + got)
+    shape, cells = got
+    if list(shape) != list(a['shape']):
+        return (sig(case, 'shape'), 'invert_line: shape %s instead of %s' % (shape, a['shape']))
+    ms = mask_bits(a['mask'], a['shape'])
+    for i, (e, cell) in enumerate(zip(elems(a), cells)):
+        em = bool(ms[i]) or e[0] == 0
+        if (cell == 'm') != em:
+            return (sig(case, 'mask'), 'invert_line of %s: masked=%s, expected %s' % (e, cell == 'm', em))
+        if not em:
+            u, v = unbits(cell[0]), unbits(cell[1])
+            if not (near(u, 1.0 / e[0], 1e-12) and near(v, -e[1] / e[0], 1e-12)):
+                return (sig(case, 'value'), 'invert_line of %s is (%r, %r), expected (%r, %r)' % (e, u, v, 1.0 / e[0], -e[1] / e[0]))
+            for y in (0.0, 1.0, -2.5):
+                x = u * y + v
+                if abs(e[0] * x + e[1] - y) > 1e-9 * max(1.0, abs(y)):
+                    return (sig(case, 'inverse'), 'invert_line of %s does not invert it at y=%r' % (e, y))
     return None
 
 
@@ -105,15 +285,7 @@ def delems(o):
 def judge_derivs(case, impl):
     op, a = case['op'], case['a']
     got = impl(case)
-    if op == 'derivd':
-        if isinstance(got, str):
-            return (sig(case, 'exception:' + got), 'deriv() of a polynomial with derivatives: ' + got)
-        ms = mask_bits(a['mask'], a['shape'])
-        polys = [list(np.atleast_1d(np.polyder(p))) if len(p) > 1 else [0] for p in elems(a)]
-        dpolys = [list(np.atleast_1d(np.polyder(p))) if len(p) > 1 else [0] for p in delems(a)]
-        return cmp_cells(case, got[:2], a['shape'], ms, polys) or \
-            cmp_cells(dict(case, op='derivd.d_dt'), [got[0], got[2]], a['shape'], ms, dpolys)
-    b = case['b'] if op == 'muld' else case['x']
+    b = case['x']
     out = np_bcast(a['shape'], b['shape'])
     if out is None:
         if got != 'ValueError':
@@ -125,13 +297,6 @@ def judge_derivs(case, impl):
     mb = bc(mask_bits(b['mask'], b['shape']), b['shape'], out)
     ms = [x or y for x, y in zip(ma, mb)]
     ea, da = bc(elems(a), a['shape'], out), bc(delems(a), a['shape'], out)
-    if op == 'muld':
-        eb, db = bc(elems(b), b['shape'], out), bc(delems(b), b['shape'], out)
-        polys = [list(np.atleast_1d(np.polymul(p, q))) for p, q in zip(ea, eb)]
-        dpolys = [list(np.atleast_1d(np.polyadd(np.polymul(q, dp), np.polymul(p, dq))))
-                  for p, dp, q, dq in zip(ea, da, eb, db)]
-        return cmp_cells(case, got[:2], out, ms, polys) or \
-            cmp_cells(dict(case, op='muld.d_dt'), [got[0], got[2]], out, ms, dpolys)
     # evald
     xs = bc(list(b['vals']), b['shape'], out)
     dxs = bc(list(b.get('d') or [0] * len(b['vals'])), b['shape'], out)
@@ -157,7 +322,7 @@ def judge_roots_derivs(case, call):
     n = a['len'] - 1
     try:
         with warnings.catch_warnings():
-            warnings.simplefilter('ignore')
+            warnings.simplefilter('error')
             r = call(case)
     except Exception as e:
         return (sig(case, 'exception:' + C.exc_name(e)), 'roots() of a polynomial with derivatives raised %r' % (e,))
@@ -325,6 +490,62 @@ def judge_eval(case, impl):
 
 
 # ------------------------------------------------------------------ roots
+def companion_eigs(o):
+    """what polymath hands to LAPACK for order >= 3 and what comes back, recomputed with plain NumPy on an identically
+    built stacked array (all-zero rows -> 1 x^n, leading zeros shifted out): (first rows, shift counts, eigenvalues)"""
+    shape, n = list(o['shape']), o['len'] - 1
+    c = np.array(o['vals'], dtype=float).reshape(shape + [n + 1]).copy()
+    allz = np.all(c == 0., axis=-1)
+    c[allz, 0] = 1.
+    cnt = int(np.prod(shape, dtype=int))
+    flat = c.reshape(cnt, n + 1)
+    shifts = [0] * cnt
+    for i in range(cnt):
+        while flat[i, 0] == 0.:
+            flat[i, :-1] = flat[i, 1:].copy()
+            flat[i, -1] = 0.
+            shifts[i] += 1
+    c = flat.reshape(shape + [n + 1])
+    mat = np.empty(tuple(shape) + (n, n))
+    mat[..., :, :] = np.diag(np.ones((n - 1,)), -1)
+    mat[..., 0, :] = -c[..., 1:] / c[..., 0:1]
+    ev = np.linalg.eigvals(mat).reshape(cnt, n)
+    return mat[..., 0, :].reshape(cnt, n), shifts, ev
+
+
+def check_eig_contract(case):
+    """monitor the LAPACK contract assumed by roots_high_spectral_partial on the recorded eigenvalues:
+    (A) every eigenvalue is a root of the characteristic polynomial x^n - row(x) (residual), their sum is the trace;
+    (B) the first `shifts` entries are exact zeros, and a further exact zero is present iff p(0) = 0"""
+    a = case['a']
+    n = a['len'] - 1
+    rows, shifts, ev = companion_eigs(a)
+    es = elems(a)
+    for i in range(len(ev)):
+        monic = np.concatenate(([1.0], -rows[i]))
+        for z in ev[i]:
+            scale = float(np.polyval(np.abs(monic), abs(z)))
+            if not abs(np.polyval(monic, z)) <= 1e-8 * scale:
+                return (sig(case, 'eigvals-contract:residual'),
+                        'eigvals of the companion matrix of %s: %r is not a root of the characteristic polynomial (residual %r, scale %r)'
+                        % (es[i], complex(z), abs(np.polyval(monic, z)), scale))
+        if abs(np.sum(ev[i]) - rows[i][0]) > 1e-8 * max(1.0, float(np.sum(np.abs(ev[i])))):
+            return (sig(case, 'eigvals-contract:trace'), 'eigvals of the companion matrix of %s: sum %r, trace %r'
+                    % (es[i], complex(np.sum(ev[i])), rows[i][0]))
+        k = shifts[i]
+        if any(z != 0 for z in ev[i][:k]):
+            return (sig(case, 'eigvals-contract:zeros-first'),
+                    'companion matrix of %s (%d leading zeros): the first %d eigenvalues %s are not exact zeros'
+                    % (es[i], k, k, [complex(z) for z in ev[i][:k]]))
+        if any(c != 0 for c in es[i]):
+            has0 = any(z == 0 for z in ev[i][k:])
+            if has0 != (es[i][-1] == 0):
+                return (sig(case, 'eigvals-contract:zero-root'),
+                        'companion matrix of %s: exact zero eigenvalue after the first %d: %s, but p(0) = %s'
+                        % (es[i], k, has0, es[i][-1]))
+    return None
+
+
 def near(u, v, tol):
     return abs(u - v) <= tol * max(1.0, abs(v))
 
